@@ -234,7 +234,7 @@ def rule_f(repo, chk):
     # functions of refactoring/extract.py dereference their `until_pos` parameter only under a None test
     passes_none = any(isinstance(a.value, ast.Constant) and a.value.value is None and norm(a.targets[0]) == 'until_pos'
                       for m_ in ('extract_variable', 'extract_function') for a in stmts_in(repo.find_method(ci, m_), ast.Assign))
-    chk.ob('C07.f', passes_none, ci.node, 'Script.extract_* pass until_pos = None when no range is given (premise of the next obligations)')
+    chk.notes['C07.f until_pos = None seen in Script.extract_*'] = bool(passes_none)     # informative: the None test is demanded either way
     from ..lib import derefs_of, none_safe
     k = 0
     for q_, g_ in sorted(repo.module(EXT).defs.items()):
